@@ -39,7 +39,7 @@ TNext == /\ l < Len(Tr.ev) /\ l' = l + 1 /\ UNCHANGED tid
                    /\ v' = EmaStep(Beta, v, e.batch) /\ ehist' = Append(ehist, e.batch)
                    /\ UNCHANGED <<n, S, Q, varsW, varsU>>
               [] Tr.kind = "U" ->
-                   /\ (IF e.call = "epoch" THEN EpochU ELSE EvalU(e.batch))
+                   /\ (IF e.call = "epoch" THEN EpochAt(e.ep) ELSE EvalU(e.batch))
                    /\ UNCHANGED <<n, S, Q, varsW, varsE>>
 TSpec == TInit /\ [][TNext]_<<tvars, varsW, varsE, varsU>>
 
